@@ -5108,4 +5108,4 @@ impl std::fmt::Display for Channel {
 // verification hook: inert unless built by `cargo kani` (cfg(kani)); see /verif/DESIGN.md
 #[cfg(kani)]
 #[path = "/verif/harness/metadata.rs"]
-mod verif_k;
+pub(crate) mod verif_k;
